@@ -23,9 +23,9 @@ func init() {
 	cfgs := map[string]crashCfg{
 		"C01": {"mixed", 24, 110, "crash images (snapshot at an I/O boundary x which pending 8-byte pieces / directory operations / lengths reached disk, nested to depth 2) recovered and compared with the legal model states; non-trivial = distinct image content hash with a pending piece, pending directory operation, in-flight call or taken inside recovery", "nontrivial_images"},
 		"C02": {"chains", 30, 140, "crash images of chains crash->recover->append->crash; recovered state must equal one legal state exactly; non-trivial = distinct image whose tail file, before recovery, holds non-zero bytes beyond the point where a plain frame scan stops, or a torn (partial) subset of the in-flight batch", "c02_nontrivial"},
-		"C03": {"seal", 24, 110, "crash images recovered, then a fixed continuation (appends forcing rotation, truncations, stable set/get, clean reopen, append) must succeed and match; non-trivial = distinct image taken in rotation, inside Open, during a truncation, or with the tail file missing", "c03_nontrivial"},
+		"C03": {"seal", 22, 110, "crash images recovered, then a fixed continuation (appends forcing rotation, truncations, stable set/get, clean reopen, append) must succeed and match; non-trivial = distinct image taken in rotation, inside Open, during a truncation, or with the tail file missing", "c03_nontrivial"},
 		"C04": {"trunc", 24, 110, "crash images of workloads rich in truncations; non-trivial = distinct image with a truncation in flight or acknowledged earlier", "trunc_images"},
-		"C13": {"mixed", 20, 90, "directory listing compared with committed metadata after every acknowledged call of the golden run and after Open on every crash image, plus online segment-ID rules at every CommitState/Create; non-trivial = distinct image holding a file not in (or lacking a file of) the committed metadata before Open, plus reader-pinning scripts (a reader parked holding the old state while a head / tail / all truncation drops its segment: the files must be gone once DeleteRange returned and the reader finished)", "c13_nontrivial"},
+		"C13": {"mixed", 18, 90, "directory listing compared with committed metadata after every acknowledged call of the golden run and after Open on every crash image, plus online segment-ID rules at every CommitState/Create; non-trivial = distinct image holding a file not in (or lacking a file of) the committed metadata before Open, plus reader-pinning scripts (a reader parked holding the old state while a head / tail / all truncation drops its segment: the files must be gone once DeleteRange returned and the reader finished)", "c13_nontrivial"},
 	}
 	for id, cfg := range cfgs {
 		id, cfg := id, cfg
